@@ -561,9 +561,23 @@ func judge(cp crashPoint, r *recovered, where string) (v verdicts) {
 				add(&v.c01, "lost-variable|"+cp.phase, fmt.Sprintf("%s: acknowledged record %d of %s written %d time(s), %d after restart", where, tag, k, n, gc[tag]))
 			}
 		}
-		// C02: nothing that was not issued, right multiplicity
+		// C02: nothing that was not issued, right multiplicity. A value written before the bucket was destroyed and
+		// re-created WAS issued (the property speaks of issued write requests, not of bucket incarnations): replay
+		// bringing it back is not judged here
+		issuedBefore := map[int64]map[int32]bool{}
+		for _, w := range append(append([]hWrite{}, cp.acked...), cp.inflight...) {
+			if w.key != k || w.destroy || w.variable {
+				continue
+			}
+			for i, t := range w.times {
+				if issuedBefore[t.Unix()] == nil {
+					issuedBefore[t.Unix()] = map[int32]bool{}
+				}
+				issuedBefore[t.Unix()][w.tags[i]] = true
+			}
+		}
 		for e, g := range got.fixed {
-			if g != l.fixed[e] && g != h.fixed[e] {
+			if g != l.fixed[e] && g != h.fixed[e] && !issuedBefore[e][g] {
 				if _, ok := h.fixed[e]; !ok {
 					add(&v.c02, "phantom|"+rt+"|"+cp.phase, fmt.Sprintf("%s: %s holds a row at %s (value %d) that no issued write put there", where, k, time.Unix(e, 0).UTC().Format("2006-01-02T15"), g))
 				} else if _, ok := l.fixed[e]; ok || true {
@@ -584,8 +598,35 @@ func judge(cp crashPoint, r *recovered, where string) (v verdicts) {
 		}
 	}
 	// all-or-nothing of the in-flight request (over all its buckets)
-	if len(cp.inflight) > 0 && !matchLo && !matchHi && len(v.c01) == 0 && len(v.c02) == 0 && len(v.c03) == 0 {
-		add(&v.c02, "partial-transaction|"+cp.phase, fmt.Sprintf("%s: recovered %s is neither the state without the in-flight request %s nor with it %s", where, fmtState(r.tables), fmtState(lo), fmtState(hi)))
+	// judged on the in-flight request's own rows: all of them visible or none
+	_, _ = matchLo, matchHi
+	if len(cp.inflight) > 0 && len(v.c01) == 0 && len(v.c02) == 0 && len(v.c03) == 0 {
+		total, present := 0, 0
+		for _, w := range cp.inflight {
+			if w.destroy {
+				continue
+			}
+			got := r.tables[w.key]
+			for i, t := range w.times {
+				total++
+				if got == nil {
+					continue
+				}
+				if w.variable {
+					for _, tg := range got.recs {
+						if tg == w.tags[i] {
+							present++
+							break
+						}
+					}
+				} else if got.fixed[t.Unix()] == w.tags[i] {
+					present++
+				}
+			}
+		}
+		if present != 0 && present != total {
+			add(&v.c02, "partial-transaction|"+cp.phase, fmt.Sprintf("%s: %d of the %d rows of the in-flight request are visible after recovery: recovered %s; without the request %s, with it %s", where, present, total, fmtState(r.tables), fmtState(lo), fmtState(hi)))
+		}
 	}
 	if r.second2 != "" {
 		add(&v.c02, "second-restart-differs|"+cp.phase, where+": "+r.second2)
